@@ -80,6 +80,9 @@ pub struct FDump {
     pub pack_checks: BTreeMap<String, Acc<bool>>,
     /// file -> ContainerPack::check of that file
     pub file_checks: BTreeMap<String, Acc<bool>>,
+    /// live phase only: did anything the container serves (entries, contents, counts) change
+    #[serde(default)]
+    pub live_changed: Option<bool>,
 }
 
 #[derive(Serialize, Deserialize, Debug, Clone)]
@@ -95,6 +98,9 @@ pub struct Job {
     /// same time (several readers waiting on one damaged cluster), results are not compared
     #[serde(default)]
     pub concurrent: u8,
+    /// C04 live phase: (file, position, xor mask) altered in place between two dumps of ONE container
+    #[serde(default)]
+    pub live: Option<(String, u64, u8)>,
 }
 
 fn dump_manifest(main: &Path) -> Acc<Vec<FPackInfo>> {
@@ -148,43 +154,13 @@ fn check_pack_reader(r: &jbk::Reader) -> Result<bool, String> {
     Err(errs.join(" / ").chars().take(200).collect())
 }
 
-pub fn run_job(job: &Job) -> FDump {
-    let dir = Path::new(&job.dir);
-    let mut d = FDump::default();
-    // integrity checks of every file and every pack in it
-    for f in &job.files {
-        match jbk::tools::open_pack(dir.join(f)) {
-            Err(e) => {
-                d.file_checks.insert(f.clone(), Acc::Err(e.to_string().chars().take(200).collect()));
-            }
-            Ok(cp) => {
-                let mut uuids: Vec<uuid::Uuid> = cp.iter().map(|(u, _)| *u).collect();
-                uuids.sort();
-                for u in uuids {
-                    let r = cp.get_pack_reader(&u).unwrap();
-                    d.pack_checks.insert(format!("{f}|{u}"), acc(check_pack_reader(&r)));
-                }
-                d.file_checks.insert(f.clone(), acc(cp.check()));
-            }
-        }
-    }
-    if job.full {
-        d.manifest = Some(dump_manifest(&dir.join(&job.main)));
-    }
-    let c = match jbk::reader::Container::new(dir.join(&job.main)) {
-        Ok(c) => {
-            d.open = Some(Acc::Ok(()));
-            c
-        }
-        Err(e) => {
-            d.open = Some(Acc::Err(e.to_string().chars().take(200).collect()));
-            return d;
-        }
-    };
+/// everything the dump takes from an opened container (also used twice on ONE container by the
+/// live-alteration phase of C04)
+pub fn fill_from_container(c: &jbk::reader::Container, job: &Job, d: &mut FDump) {
     d.container_check = Some(acc(c.check()));
     d.pack_count = Some(c.pack_count().into_u16());
     if !job.full {
-        return d;
+        return;
     }
     for name in &job.index_names {
         let oi = match open_index(c.get_directory_pack(), &|ix| ix.get_store(c.get_entry_storage()), c.get_value_storage(), name) {
@@ -261,6 +237,82 @@ pub fn run_job(job: &Job) -> FDump {
             }
         };
         d.contents.insert(key, v);
+    }
+}
+
+/// C04, live phase: ONE opened container is dumped, a byte of one of its files is altered in place,
+/// and the same container object is dumped and checked again. Returns (before, after).
+pub fn run_live(job: &Job, file: &str, pos: u64, mask: u8) -> Result<(FDump, FDump), String> {
+    use std::io::{Read as _, Seek, SeekFrom, Write};
+    let dir = Path::new(&job.dir);
+    let c = jbk::reader::Container::new(dir.join(&job.main)).map_err(|e| format!("open: {e}"))?;
+    let mut d0 = FDump::default();
+    fill_from_container(&c, job, &mut d0);
+    let mut f = std::fs::OpenOptions::new().read(true).write(true).open(dir.join(file)).map_err(|e| e.to_string())?;
+    let mut b = [0u8; 1];
+    f.seek(SeekFrom::Start(pos)).map_err(|e| e.to_string())?;
+    f.read_exact(&mut b).map_err(|e| e.to_string())?;
+    let orig = b[0];
+    b[0] ^= mask;
+    f.seek(SeekFrom::Start(pos)).map_err(|e| e.to_string())?;
+    f.write_all(&b).map_err(|e| e.to_string())?;
+    f.flush().map_err(|e| e.to_string())?;
+    let mut d1 = FDump::default();
+    fill_from_container(&c, job, &mut d1);
+    f.seek(SeekFrom::Start(pos)).map_err(|e| e.to_string())?;
+    f.write_all(&[orig]).map_err(|e| e.to_string())?;
+    Ok((d0, d1))
+}
+
+pub fn run_job(job: &Job) -> FDump {
+    let dir = Path::new(&job.dir);
+    let mut d = FDump::default();
+    if let Some((file, pos, mask)) = &job.live {
+        match run_live(job, file, *pos, *mask) {
+            Ok((d0, mut d1)) => {
+                d1.open = Some(Acc::Ok(()));
+                d1.live_changed = Some(d0.indexes != d1.indexes || d0.contents != d1.contents || d0.packs != d1.packs || d0.pack_count != d1.pack_count);
+                return d1;
+            }
+            Err(e) => {
+                d.open = Some(Acc::Err(e.chars().take(200).collect()));
+                return d;
+            }
+        }
+    }
+    // integrity checks of every file and every pack in it
+    for f in &job.files {
+        match jbk::tools::open_pack(dir.join(f)) {
+            Err(e) => {
+                d.file_checks.insert(f.clone(), Acc::Err(e.to_string().chars().take(200).collect()));
+            }
+            Ok(cp) => {
+                let mut uuids: Vec<uuid::Uuid> = cp.iter().map(|(u, _)| *u).collect();
+                uuids.sort();
+                for u in uuids {
+                    let r = cp.get_pack_reader(&u).unwrap();
+                    d.pack_checks.insert(format!("{f}|{u}"), acc(check_pack_reader(&r)));
+                }
+                d.file_checks.insert(f.clone(), acc(cp.check()));
+            }
+        }
+    }
+    if job.full {
+        d.manifest = Some(dump_manifest(&dir.join(&job.main)));
+    }
+    let c = match jbk::reader::Container::new(dir.join(&job.main)) {
+        Ok(c) => {
+            d.open = Some(Acc::Ok(()));
+            c
+        }
+        Err(e) => {
+            d.open = Some(Acc::Err(e.to_string().chars().take(200).collect()));
+            return d;
+        }
+    };
+    fill_from_container(&c, job, &mut d);
+    if !job.full {
+        return d;
     }
     if job.concurrent > 1 {
         if let Ok(c2) = jbk::reader::Container::new(dir.join(&job.main)) {
